@@ -281,6 +281,7 @@ func c01Gen(c *Ctx) {
 		t.Try("exhaustive-2x1", in, true)
 	})
 	c.Note(fmt.Sprintf("exhaustive part: %d configurations (cap, counter base incl. 2^32-1, fill level, push/pop per thread) x all %d interleavings of two 7-step operations", len(cfgs), len(scheds)))
+	c.Each(1, func(i int, t *T) { t.Try("known-finding-F10-aba", c01F10Case(), true) })
 	// (2) random: 2-4 threads, 1-3 ops each, random schedules
 	n := c.N(30000, 600000)
 	c.Each(n, func(i int, t *T) {
@@ -325,11 +326,43 @@ func c01Gen(c *Ctx) {
 	})
 }
 
+// the known finding F10: a pusher parked between its sequence check and its CAS while the tail advances by 2^32
+func c01F10Case() []int64 {
+	in := []int64{1, 0, 0, 0, 2}
+	in = append(in, PutList([]int64{111})...)
+	in = append(in, PutList([]int64{1, 2})...)
+	sch := []int64{0, 0, 0, -2}
+	for i := 0; i < 12; i++ {
+		sch = append(sch, 1)
+	}
+	for i := 0; i < 6; i++ {
+		sch = append(sch, 0)
+	}
+	return append(in, PutList(sch)...)
+}
+
+func c01Known(in, out []int64) string {
+	if len(in) < 5 {
+		return ""
+	}
+	rest := in[5:]
+	for i := 0; i < int(in[4]); i++ {
+		_, rest = GetList(rest)
+	}
+	sch, _ := GetList(rest)
+	for _, t := range sch {
+		if t < 0 { // some operation may be suspended across a counter advance of about 2^32
+			return "F10"
+		}
+	}
+	return ""
+}
+
 func c01Describe(in []int64) string {
 	return fmt.Sprintf("cap=2^%d base=%d*2^32+%d fill=%d threads=%d programs+schedule=%v", in[0], in[1], in[2], in[3], in[4], in[5:])
 }
 
 func init() {
-	Register(&Prop{ID: "C01", Num: 1, SpecMode: "rel", Gen: c01Gen, ImplM: c01ImplM, Describe: c01Describe,
+	Register(&Prop{ID: "C01", Num: 1, SpecMode: "rel", Gen: c01Gen, ImplM: c01ImplM, Describe: c01Describe, Known: c01Known,
 		Rule: "each case = ring capacity, counter base (incl. values next to 2^32), fill level, per-thread programs of Push/Pop and a schedule of thread ids; the real SyncRing runs under the atomic shim (goroutines parked before and after every sync/atomic call), the model runs the same schedule; compared: every atomic operation (kind, location, operands, result) in order, every return value, final head/tail/slots. exhaustive: all interleavings of 2 threads x 1 op; random: 2-4 threads x 1-3 ops. every case is distinct and non-trivial (>= 2 threads interleaved)"})
 }
